@@ -43,8 +43,28 @@ func findPushArm(p *Prog) *pushArm {
 	for _, s := range p.CallsTo(p.Method("KCP", "ack_push")) {
 		if s.Fn == input {
 			pa.ackCall = s.Call
-			if s.Args[0].Op == "var" {
-				pa.sn, _ = s.Args[0].Obj.(*types.Var)
+			// which argument is the sequence number: the parameter of ack_push that ends up in ackItem.sn
+			idx := 0
+			if ap := p.FuncOf(p.Method("KCP", "ack_push")); ap != nil {
+				for _, st := range p.FieldStores(p.Field("ackItem", "sn")) {
+					if rootFuncInfo(st.Fn) != ap || st.Rhs == nil {
+						continue
+					}
+					if t := p.Term(st.Rhs); t.Op == "var" {
+						for i := 0; ; i++ {
+							o := ap.paramObj(p, i)
+							if o == nil {
+								break
+							}
+							if o == t.Obj {
+								idx = i
+							}
+						}
+					}
+				}
+			}
+			if idx < len(s.Args) && s.Args[idx].Op == "var" {
+				pa.sn, _ = s.Args[idx].Obj.(*types.Var)
 			}
 		}
 	}
